@@ -64,6 +64,18 @@ def run(ctx, prefix):
         # messages whose type the port does not admit, and queries below a null pointer
         for addr, ty, v in (("/pi", "f", 4), ("/pf", "i", 3), ("/pt", "i", 1), ("/ps", "i", 1), ("/ai1", "f", 4), ("/psub/si", "i", 3), ("/sub/st", "i", 1)):
             scripts.append([dict(op="set", addr=addr, ty=ty, v=v), dict(op="get", addr=addr), dict(op="saveload", seed=0)])
+        # long arrays: their saved form contains compressed runs ("5x7", "1 ... 6"); and the enumerated sub-tree below a sub-tree that can be disabled
+        def sets(pairs):
+            out = []
+            for a, v in pairs:
+                out += [dict(op="set", addr=a, ty="i", v=v), dict(op="get", addr=a)]
+            return out + [dict(op="saveload", seed=1)]
+        scripts.append(sets([("/al%d" % i, 7) for i in range(5)] + [("/al5", 1), ("/al6", 2)]))
+        scripts.append(sets([("/al%d" % i, i + 1) for i in range(6)] + [("/al6", 9)]))
+        scripts.append(sets([("/al%d" % i, 5) for i in range(2, 8)]))
+        scripts.append(sets([("/al%d" % i, 10 - i) for i in range(8)]))
+        scripts.append([dict(op="set", addr="/fx_on", ty="T"), dict(op="set", addr="/fx/voice1/vol", ty="i", v=100), dict(op="set", addr="/fx/gain", ty="i", v=9), dict(op="saveload", seed=2)])
+        scripts.append([dict(op="set", addr="/fx/voice0/vol", ty="i", v=1), dict(op="set", addr="/fx_on", ty="T"), dict(op="set", addr="/fx/voice1/vol", ty="i", v=127), dict(op="saveload", seed=3)])
         for what, text in BAD_FILES:
             scripts.append([dict(op="loadraw", text=text, what=what)])
     p = ctx.path("scripts.ndjson")
